@@ -372,6 +372,11 @@ where
     let frame_reader = FrameReader::new(packet.body(), packet.get_type());
     for frame_result in frame_reader {
         let (frame, r#type) = frame_result.map_err(QuicError::from)?;
+        // RFC 9000 §19.3.1: ranges reaching below packet number 0 are a FRAME_ENCODING_ERROR;
+        // must be checked before any consumer iterates the frame (`AckFrame::iter` subtracts unchecked).
+        if let qbase::frame::Frame::Ack(ack_frame) = &frame {
+            ack_frame.validate()?;
+        }
         frames_collector.extend([&frame]);
         packet_content += r#type;
         dispatch_frame(frame);
